@@ -42,7 +42,7 @@ SPEC = {
                    "thorough": {"evaluations": 60000, "oracle_evals": 1000000, "encodings": 60000,
                                 "fibers_scanned": 300000, "lookup_queries": 300000, "sizes_checked": 300000,
                                 "multiword_mask_fibers": 300}},
-    "budget_s": {"quick": 45, "thorough": 480},
+    "budget_s": {"quick": 40, "thorough": 420},
     "timeout_s": {"quick": 600, "thorough": 1800},
     "assumptions": [
         "formats U, C, B only (statement); leaf default 0, integer coordinates, integer leaf values, every declared extent "
@@ -118,7 +118,7 @@ def generate(rng, tier, shard, nshards, mon):
                            "imposed": imposed, "sys": True}
                 idx += 1
     mon.exhaustive["small-scope trees x all descriptors x {no, +1/+2} imposed shape"] = True
-    ntensors = (1200 if tier == "quick" else 40000) // nshards + 1
+    ntensors = (1200 if tier == "quick" else 30000) // nshards + 1
     for _ in range(ntensors):
         base = _random_tensor(rng)
         depth = base["depth"]
